@@ -63,6 +63,39 @@ def doProx (aux : Bool) (l : Line) : Option String := do
   let dump (b : Nat) := showList showBits ((List.range (n * mc)).map (st.mem b))
   some s!"ok b0={dump 0} b1={dump 1} b2={dump 2} b3={dump 3} b4={dump 4} b5={dump 5}"
 
+/-- `cprox id=NAME flags=.. alias=0|1 n=N <scalars as for prox> x=.. xi=.. j=.. ji=.. g=.. gi=..
+sig=.. sigi=.. lo=.. loi=.. up=.. upi=..`: the SAME programs `prog` at `K = CF` (complex doubles,
+real and imaginary parts as separate lists); only the arithmetic-only bodies (`arithOnly`).
+Answers `ok b0=.. c0=.. … b5=.. c5=..` (real parts `b`, imaginary parts `c`). -/
+def doCProx (l : Line) : Option String := do
+  let name ← l.get? "id"
+  let flags := (l.get? "flags").getD ""
+  let id ← parseId name flags
+  if !arithOnly id then none
+  let alias ← l.bool? "alias"
+  let n ← l.nat? "n"
+  let cf (k : String) : Option CF := (l.f? k).map cOfF
+  let par : Par CF := {
+    lam := ← cf "lam", sigma := ← cf "sigma", gamma := ← cf "gamma",
+    radius := ← cf "radius", eps := ← cf "eps", cw := ← cf "cw", a := ← cf "a", b := ← cf "b" }
+  let buf (k : String) : Option (Array Float × Array Float) := do
+    some (← l.fs? k, ← l.fs? (k ++ "i"))
+  let x ← buf "x"
+  let j ← buf "j"
+  let g ← buf "g"
+  let sig ← buf "sig"
+  let lo ← buf "lo"
+  let up ← buf "up"
+  let rd (a : Array Float × Array Float) (i : Nat) : CF := ⟨a.1.getD i nanF, a.2.getD i nanF⟩
+  let m : Buf → Vec CF := fun b i =>
+    match b with
+    | 0 => rd x i | 1 => rd j i | 2 => rd g i | 3 => rd sig i | 4 => rd lo i | 5 => rd up i
+    | _ => nanC
+  let st := run (fun _ _ => nanC) (prog complexFns par id) 0 (if alias then 0 else 1) m
+  let dumpR (b : Nat) := showList showBits ((List.range n).map (fun i => (st.mem b i).re))
+  let dumpI (b : Nat) := showList showBits ((List.range n).map (fun i => (st.mem b i).im))
+  some ("ok " ++ " ".intercalate ((List.range 6).map fun b => s!"b{b}={dumpR b} c{b}={dumpI b}"))
+
 /-- `class name=PythonClassName` answers the model program covering it. -/
 def doClass (l : Line) : Option String := do
   let name ← l.get? "name"
@@ -74,6 +107,7 @@ def handle (l : Line) : Option String :=
   match l.op with
   | "prox" => doProx false l
   | "aux" => doProx true l
+  | "cprox" => doCProx l
   | "auxtable" => some ("ok classes=" ++ ",".intercalate (auxTable.map (·.1)))
   | "class" => doClass l
   | "table" => some ("ok classes=" ++ ",".intercalate (classTable.map (·.1)))
